@@ -1,5 +1,5 @@
-"""Predicates of the listed findings of C03 (see known/C03.json).  C03-F1 is fixed (3a63bdb): its predicate is
-kept for reference but no open entry names it any more."""
+"""Predicates of the listed findings of C03 (see known/C03.json).  C03-F1 (3a63bdb) and C03-F2 (ee937b8) are fixed:
+their predicates are kept for reference but no open entry names them any more."""
 from harness.common import known_predicate
 
 
